@@ -845,7 +845,10 @@ func writeBufYAMLFile(writer io.Writer, bufYAMLFile BufYAMLFile) error {
 				externalBufYAMLFile.Modules[i].Breaking = externalBufYAMLFileBreakingV1Beta1V1V2{}
 			}
 		}
-		if len(externalBufYAMLFile.Modules) == 1 && externalBufYAMLFile.Modules[0].Path == "." && len(externalBufYAMLFile.Modules[0].Excludes) == 0 {
+		if len(externalBufYAMLFile.Modules) == 1 &&
+			externalBufYAMLFile.Modules[0].Path == "." &&
+			len(externalBufYAMLFile.Modules[0].Includes) == 0 &&
+			len(externalBufYAMLFile.Modules[0].Excludes) == 0 {
 			// We know that lint and breaking will already be top-level from the above if statement.
 			externalBufYAMLFile.Name = externalBufYAMLFile.Modules[0].Name
 			externalBufYAMLFile.Modules = []externalBufYAMLFileModuleV2{}
